@@ -9,7 +9,8 @@ Inductive serr :=
 | SMulti (t : nat)                 (* "multiple bindings for t" *)
 | SBindMissing (i c : nat)         (* wire.Bind of concrete c to interface i, no provider for c *)
 | SCycle (l : list nat)            (* "cycle for ...", as produced by verifyAcyclic *)
-| SFuel.                           (* the model's loop bound was exhausted (never a verdict) *)
+| SFuel                            (* the model's loop bound was exhausted (never a verdict) *)
+| SItem (code : nat) (t : nat).     (* a front-end error of one direct item (class code, type or item id) *)
 
 Section Sets.
 Variable A : Type.
@@ -18,6 +19,7 @@ Inductive pset :=
 | PSet (sid : nat)
        (args : list (nat * A))            (* injector parameters (root only): type, payload *)
        (imports : list pset)              (* nested sets, in argument order *)
+       (ierrs : list serr)                (* front-end errors of this level's own items *)
        (direct : list (nat * A))          (* providers' outs, then values, then fields' outs: type, payload *)
        (binds : list (nat * nat * nat)).  (* (interface, concrete, binding id) *)
 
@@ -27,11 +29,11 @@ Variable bind_payload : nat -> A -> A.    (* payload of an interface key bound (
 (* strong induction principle for the nested type *)
 Section Ind.
 Variable P : pset -> Prop.
-Hypothesis H : forall sid a imps d b, Forall P imps -> P (PSet sid a imps d b).
+Hypothesis H : forall sid a imps ie d b, Forall P imps -> P (PSet sid a imps ie d b).
 Fixpoint pset_ind' (s : pset) : P s :=
   match s with
-  | PSet sid a imps d b =>
-    H sid a imps d b
+  | PSet sid a imps ie d b =>
+    H sid a imps ie d b
       ((fix go (l : list pset) : Forall P l :=
           match l with
           | [] => Forall_nil P
@@ -105,13 +107,13 @@ Definition build1 (args : list (nat * A)) (imps : list (nat * pmap)) (direct : l
 
 Variable verify : pmap -> list serr.     (* verifyAcyclic on the finished map *)
 
-Definition set_id (s : pset) : nat := match s with PSet sid _ _ _ _ => sid end.
+Definition set_id (s : pset) : nat := match s with PSet sid _ _ _ _ _ => sid end.
 
 (* processNewSet: nested sets first (errors of all failing ones are collected), then this level,
    then the cycle check *)
 Fixpoint process (s : pset) : pmap + list serr :=
   match s with
-  | PSet sid a imps d b =>
+  | PSet sid a imps ie d b =>
     match (fix go (l : list pset) : list (nat * pmap) * list serr :=
              match l with
              | [] => ([], [])
@@ -122,12 +124,15 @@ Fixpoint process (s : pset) : pmap + list serr :=
                | inr e => (ms, e ++ es)
                end
              end) imps with
-    | (ms, []) =>
-      match build1 a ms d b with
-      | inr e => inr e
-      | inl pm => match verify pm with [] => inl pm | e => inr e end
+    | (ms, es) =>
+      match es ++ ie with
+      | [] =>
+        match build1 a ms d b with
+        | inr e => inr e
+        | inl pm => match verify pm with [] => inl pm | e => inr e end
+        end
+      | e => inr e
       end
-    | (_, e) => inr e
     end
   end.
 
@@ -142,15 +147,18 @@ Fixpoint process_list (l : list pset) : list (nat * pmap) * list serr :=
     end
   end.
 
-Lemma process_unfold sid a imps d b :
-  process (PSet sid a imps d b) =
+Lemma process_unfold sid a imps ie d b :
+  process (PSet sid a imps ie d b) =
   match process_list imps with
-  | (ms, []) =>
-    match build1 a ms d b with
-    | inr e => inr e
-    | inl pm => match verify pm with [] => inl pm | e => inr e end
+  | (ms, es) =>
+    match es ++ ie with
+    | [] =>
+      match build1 a ms d b with
+      | inr e => inr e
+      | inl pm => match verify pm with [] => inl pm | e => inr e end
+      end
+    | e => inr e
     end
-  | (_, e) => inr e
   end.
 Proof.
   cbn [process].
@@ -162,7 +170,7 @@ Qed.
 (* ---- specification: the flattened list of provided types (with multiplicity) ---- *)
 Fixpoint provided (s : pset) : list nat :=
   match s with
-  | PSet sid a imps d b =>
+  | PSet sid a imps ie d b =>
     map fst a ++ flat_map provided imps ++ map fst d ++ map (fun x => fst (fst x)) b
   end.
 
@@ -353,8 +361,8 @@ Proof.
       (* an inr with no errors: cannot be excluded in general, but then ms = ms' drops x *)
       exfalso.
       (* process never returns inr [] *)
-      clear -Ex. destruct x as [sid a imps d b]. rewrite process_unfold in Ex.
-      destruct (process_list imps) as [ms0 [|e0 es0]].
+      clear -Ex. destruct x as [sid a imps ie d b]. rewrite process_unfold in Ex.
+      destruct (process_list imps) as [ms0 es0]. destruct (es0 ++ ie) as [|e0 es1].
       * destruct (build1 a ms0 d b) as [pm|e] eqn:Eb.
         -- destruct (verify pm); discriminate.
         -- unfold build1 in Eb.
@@ -368,9 +376,11 @@ Qed.
 Theorem process_one_source : forall s pm, process s = inl pm ->
   keys pm = provided s /\ NoDup (provided s) /\ verify pm = [].
 Proof.
-  induction s as [sid a imps d b IH] using pset_ind'. intros pm H.
+  induction s as [sid a imps ie d b IH] using pset_ind'. intros pm H.
   rewrite process_unfold in H.
-  destruct (process_list imps) as [ms es] eqn:El. destruct es; [|discriminate].
+  destruct (process_list imps) as [ms es] eqn:El.
+  destruct (es ++ ie) as [|e0 es1] eqn:Ee; [|discriminate].
+  apply app_eq_nil in Ee. destruct Ee as [-> _].
   destruct (build1 a ms d b) as [pm0|e] eqn:Eb; [|discriminate].
   destruct (verify pm0) eqn:Ev; [|discriminate]. inversion H; subst pm0.
   apply process_list_ok in El.
@@ -382,11 +392,12 @@ Proof.
 Qed.
 
 (* C11: in an accepted set every binding's concrete type is a key of that set's own map *)
-Theorem process_colocated sid a imps d b pm :
-  process (PSet sid a imps d b) = inl pm -> forall i c bid, In (i, c, bid) b -> In c (keys pm).
+Theorem process_colocated sid a imps ie d b pm :
+  process (PSet sid a imps ie d b) = inl pm -> forall i c bid, In (i, c, bid) b -> In c (keys pm).
 Proof.
   intros H. rewrite process_unfold in H.
-  destruct (process_list imps) as [ms es] eqn:El. destruct es; [|discriminate].
+  destruct (process_list imps) as [ms es] eqn:El.
+  destruct (es ++ ie) as [|e0 es1] eqn:Ee; [|discriminate].
   destruct (build1 a ms d b) as [pm0|e] eqn:Eb; [|discriminate].
   destruct (verify pm0) eqn:Ev; [|discriminate]. inversion H; subst pm0.
   eapply build1_colocated; eauto.
